@@ -1018,22 +1018,26 @@ class FnEnv:
         self.fn = fn
         self.interp = interp
         self.assigns = {}   # name -> [value nodes]
+        self.bindings = []  # (line, column, name, value node) of every `name = value`, tuple assignments split up
         for n in ast.walk(fn):
             if isinstance(n, ast.Assign):
                 for t in n.targets:
                     if isinstance(t, ast.Name):
                         self.assigns.setdefault(t.id, []).append(n.value)
+                        self.bindings.append((n.lineno, t.col_offset, t.id, n.value))
                     elif isinstance(t, (ast.Tuple, ast.List)) and isinstance(n.value, (ast.Tuple, ast.List)) \
                             and len(t.elts) == len(n.value.elts):
                         for a, b in zip(t.elts, n.value.elts):
                             if isinstance(a, ast.Name):
                                 self.assigns.setdefault(a.id, []).append(b)
+                                self.bindings.append((n.lineno, a.col_offset, a.id, b))
                     else:
                         for a in ast.walk(t):
                             if isinstance(a, ast.Name) and isinstance(a.ctx, ast.Store):
                                 self.assigns.setdefault(a.id, []).append(None)
             elif isinstance(n, ast.AnnAssign) and isinstance(n.target, ast.Name) and n.value is not None:
                 self.assigns.setdefault(n.target.id, []).append(n.value)
+                self.bindings.append((n.lineno, n.target.col_offset, n.target.id, n.value))
             elif isinstance(n, (ast.AugAssign,)) and isinstance(n.target, ast.Name):
                 self.assigns.setdefault(n.target.id, []).append(None)
             elif isinstance(n, (ast.For, ast.comprehension)):
@@ -1049,7 +1053,7 @@ class FnEnv:
                             if isinstance(a, ast.Name):
                                 self.assigns.setdefault(a.id, []).append(None)
         self.params = [a.arg for a in fn.args.args + fn.args.kwonlyargs]
-        self.extra = {}
+        self.bindings.sort(key=lambda b: b[:2])
 
     def single(self, name):
         """the value node of a local assigned exactly once (and not a parameter), else None"""
@@ -1431,13 +1435,17 @@ def read_parse_file(fn, interp):
                 line_is_element=line_is_element, params=params)
 
 
-def keyed_blocks(fn, fenv, container=None):
+def keyed_blocks(fn, fenv, container=None, want=None):
     """[(key, [used keys])] in execution order for the blocks guarded by `key in <container>`:
     `if "k" in d: ...`, the same inside a loop over a constant table of keys (unrolled; keys may be built with
     %-formatting, .format or f-strings from the loop variable), `if "k" not in d: continue` guard clauses,
     and comprehensions `[f(d[k]) for k in KEYS if k in d]`.  `used` are the constant keys with which the
-    container is subscripted inside the block."""
-    out = []
+    container is subscripted inside the block.  `want(nodes)` selects the blocks of interest."""
+    class _Out(list):
+        def append(self, item):
+            if item[2] is None or want is None or want(item[2]):
+                list.append(self, item[:2])
+    out = _Out()
 
     def in_test(test, b):
         neg = False
@@ -1476,7 +1484,7 @@ def keyed_blocks(fn, fenv, container=None):
                     b2[g.target.id] = v
                     hit = [in_test(t, b2) for t in g.ifs]
                     if len(hit) == 1 and hit[0] and hit[0][2]:
-                        out.append((hit[0][0], used_keys([c.elt], hit[0][1], b2)))
+                        out.append((hit[0][0], used_keys([c.elt], hit[0][1], b2), [c.elt]))
 
     def go(stmts, b):
         for idx, st in enumerate(stmts):
@@ -1493,7 +1501,7 @@ def keyed_blocks(fn, fenv, container=None):
             elif isinstance(st, ast.If):
                 m = in_test(st.test, b)
                 if m and m[2]:
-                    out.append((m[0], used_keys(st.body, m[1], b)))
+                    out.append((m[0], used_keys(st.body, m[1], b), st.body))
                     go(st.orelse, b)
                 elif m and not m[2] and st.body and isinstance(st.body[-1], (ast.Continue, ast.Return, ast.Break)) \
                         and len(st.body) == 1 and not st.orelse:
@@ -1504,11 +1512,11 @@ def keyed_blocks(fn, fenv, container=None):
                         if isinstance(r, ast.If) and in_test(r.test, b):
                             break
                         inner.append(r)
-                    out.append((m[0], used_keys(inner, m[1], b)))
+                    out.append((m[0], used_keys(inner, m[1], b), inner))
                     go(rest[len(inner):], b)
                     return
                 elif m and not m[2] and st.orelse:
-                    out.append((m[0], used_keys(st.orelse, m[1], b)))
+                    out.append((m[0], used_keys(st.orelse, m[1], b), st.orelse))
                     go(st.body, b)
                 else:
                     go(st.body, b)
@@ -1525,4 +1533,4 @@ def keyed_blocks(fn, fenv, container=None):
                 comps(st, b)
 
     go(body_without_docstring(fn), {})
-    return out
+    return list(out)
